@@ -194,7 +194,7 @@ class RawCANTransport(BaseTransport, scheme="can-raw"):
         timeout: float | None = None,
         tags: list[str] | None = None,
     ) -> int:
-        if self.config.dst_id:
+        if self.config.dst_id is not None:
             return await self.sendto(data, self.config.dst_id, timeout, tags)
         raise ValueError("dst_id not set")
 
